@@ -19,7 +19,7 @@ fn owner(format: Format) -> &'static str {
 }
 
 /// adopt the handles of the reloaded store by order (i-th live item <-> i-th live item)
-fn rebind_by_order(world: &mut World, new: &AnnotationStore, format: Format) -> Vec<Violation> {
+pub fn rebind_by_order(world: &mut World, new: &AnnotationStore, format: Format) -> Vec<Violation> {
     let mut out = Vec::new();
     let own = owner(format);
     let m = &mut world.model;
